@@ -41,6 +41,14 @@ CHECKS = {
             "program is compiled and freed, the error list is freed, under AddressSanitizer with -fsanitize=bounds.",
             "sanitizers see heap/stack/array-index violations, not every intra-object overwrite; line alphabet and byte alphabet are stated, longer inputs are not covered",
             "DESIGN.md 4/C14", True),
+    "C13": ("xbc", "exploration",
+            "bounded exhaustive enumeration of the program space plus boundary encodings; encode/decode/re-encode on the real code with structural, byte-level and behavioural comparison",
+            "Every program of the enumerated levels (integer and float, all operand kinds, x2/x4, 2-D, alignments, corpus) and every "
+            "boundary encoding (all boundary constants per size incl. float bit patterns, length fields at 253..257/65534, all variable slots "
+            "and parameter classes, 1..100 instructions) is serialised, reconstructed, compared field by field, re-serialised (bytes equal) "
+            "and emulated against the original.",
+            "format limits (length fields <= 65534) bound the space; names/type names are not carried by the format; ASan + bounds instrumentation",
+            "DESIGN.md 4/C13", True),
 }
 
 NOT_YET = {}
@@ -81,6 +89,8 @@ def main():
             "add_only": True,
         },
         "engines": [
+            {"name": "xbc", "path": "engines/xbc.c", "serves_properties": ["C13"],
+             "kind_free_text": "bytecode round-trip explorer over program spaces and boundary encodings (ASan+bounds build)"},
             {"name": "xparse", "path": "engines/xparse.c", "serves_properties": ["C14"],
              "kind_free_text": "exhaustive parser-input enumerator (ASan+bounds build), supervised worker with per-case crash attribution"},
             {"name": "xcpu", "path": "engines/xcpu.c", "serves_properties": ["C19"],
